@@ -63,6 +63,9 @@ func asciiJunk(rng *lib.Rng, n int) string {
 	return string(b)
 }
 
+// lateHeights: the batch has reached its last part (see mutateBlock)
+var lateHeights bool
+
 var extremeI64 = []int64{0, -1, 1, -1 << 63, 1<<63 - 1, 1 << 31, 1<<31 - 1, -1 << 31, 1 << 20, 255, 256, 257, 1 << 40}
 
 // mutateTx: structure-aware mutation of a valid transaction
@@ -128,6 +131,11 @@ func mutateBlock(rng *lib.Rng, b *types.Block) (*types.Block, string) {
 		return nb, "no-txs"
 	case 1:
 		nb.Height = lib.Pick(rng, extremeI64)
+		if !lateHeights && nb.Height > b.Height+100 {
+			// a huge height on the block topic closes the validator's height window for the rest of the batch (F-C33-4):
+			// such blocks are only sent in the last part of a batch so that the block path stays exercised before
+			nb.Height = b.Height + 100
+		}
 		return nb, "height"
 	case 2:
 		nb.TxHash = rng.Bytes(rng.Intn(40))
